@@ -746,6 +746,13 @@ class NetworkGraph(AbstractBaseIR):
                 sidx_str = 'source_idx'
                 tidx_str = 'target_idx'
 
+            # the local aliases of the edge operator must be pairwise distinct, also when the source and the target
+            # variable share their name or a user variable is called `weight`
+            if w_str == t_str:
+                w_str = f'{w_str}_edge'
+            if s_str in (t_str, w_str):
+                s_str = f'{s_str}_source'
+
             # case 0g: global edge — weight is a 0-d (scalar) array (used by
             # Connectivity for uniform all-to-all coupling). Realized as a reduction
             # t = w * vsum(source), broadcast to all targets, WITHOUT ever forming an
